@@ -1,5 +1,6 @@
 import Driver.Codec
 import Rcgen.Spec.Props
+import Rcgen.Spec.Ber
 import Rcgen.Model.Pem
 import Rcgen.Spec.Pem
 import Rcgen.Model.CsrParse
@@ -252,6 +253,12 @@ def handle (op : String) (args : List Sexp) : R Sexp := do
     match Spec.splitSigned cert with
     | none => pure (failList ["C01:outer-structure"])
     | some (tbs, _, _) => pure (failList (Spec.c06IssueClauses csr tbs))
+  | "spec-csr-issue-ber", [csr, cert] => do
+    -- the same question put with the tolerant reader (any definite length form, every element
+    -- of a value): for requests the strict decoder cannot read
+    match Spec.c06IssueClausesBer (← csr.asBytes) (← cert.asBytes) with
+    | some fs => pure (failList fs)
+    | none => pure (.atom "unreadable")
   | "spec-crl", [p, i, der] => do
     let p ← decCrlParams p
     let i ← decIssuerOnly i
